@@ -199,8 +199,19 @@ PLANS["C19"] = {
             "ill-sorted terms, names inside rejected terms, illegal pop, bad definitions, wrong mode); both are replayed against "
             "the specification, in which a rejected command changes nothing; responses are also compared command by command",
 }
+def names_jobs(seed, tier):
+    parts = N(tier, 6, 12)
+    cfg = N(tier, "MC_Names_emit4", "MC_Names_emit")
+    jobs = [{"builder": "namesdrv", "seed": 0, "logic": "-", "module": "Names_Trace", "source": "spec", "cfg": cfg, "part": k, "parts": parts}
+            for k in range(parts)]
+    jobs += spread(seed, "C21n", N(tier, 6, 60), ["-"], "namesdrv", module="Names_Trace", count=N(tier, 40, 80))
+    jobs += spread(seed, "C21ng", N(tier, 2, 20), ["-"], "namesdrv", module="Names_Trace", count=N(tier, 30, 60), globaldecl=True)
+    return jobs
 PLANS["C21"] = {
-    "jobs": lambda seed, tier: spread(seed, "C21", N(tier, 90, 1800), ["QF_BOOL", "QF_UF", "QF_LRA", "QF_LIA", "QF_IDL", "QF_UFLRA"], "names") +
+    "pre": lambda: driver_build(),
+    "mc": [{"module": "MC_Names", "workers": 6}, {"module": "MC_Names", "cfg": "MC_Names_global", "workers": 4}],
+    "jobs": lambda seed, tier: names_jobs(seed, tier) +
+                               spread(seed, "C21", N(tier, 90, 1800), ["QF_BOOL", "QF_UF", "QF_LRA", "QF_LIA", "QF_IDL", "QF_UFLRA"], "names") +
                                spread(seed, "C21g", N(tier, 30, 600), ["QF_BOOL", "QF_UF", "QF_LRA", "QF_LIA"], "names", globaldecl=True) +
                                spread(seed, "C21c", N(tier, 40, 800), ["QF_BOOL", "QF_LIA", "QF_UF", "QF_LRA"], "cores", assign=True),
     "rule": "scripted scope scenarios (name and define-fun introduced on a level, popped, re-introduced, referenced in cores, "
